@@ -1,10 +1,124 @@
-"""serialization side of C08 (filled once the serialization harness exists)"""
+"""serialization side of C08: results do not depend on no_copy, precomputed methods, check_type, pass_through"""
+import json
+
+from harness import gen_deser as G, gen_ser as S, pyrun
+from harness.ser_run import SProducer
+
+
+def mutable_ids(x, acc=None):
+    """ids of the mutable containers reachable from x"""
+    import dataclasses
+    acc = {} if acc is None else acc
+    if isinstance(x, (list, dict, set)):
+        if id(x) in acc:
+            return acc
+        acc[id(x)] = x
+    if isinstance(x, (list, tuple, set, frozenset)):
+        for y in x:
+            mutable_ids(y, acc)
+    elif isinstance(x, dict):
+        for k, y in x.items():
+            mutable_ids(y, acc)
+    elif dataclasses.is_dataclass(x) and not isinstance(x, type):
+        for f in dataclasses.fields(x):
+            mutable_ids(getattr(x, f.name, None), acc)
+    return acc
+
+
+def str_vs_sequence(t, u, seen=None):
+    """a union offering both a collection and a string-like alternative: a str value is also a Sequence, which alternative
+    serializes it depends on the strategy (not a dependence on the options)"""
+    seen = set() if seen is None else seen
+    k = t[0]
+    if k == "union":
+        kinds = set()
+        for a in t[1]:
+            b = a
+            while b[0] == "con":
+                b = b[2]
+            kinds.add("seq" if b[0] in ("coll", "tuple") else "str" if b[0] in ("str", "lit", "enum", "any") else b[0])
+        if {"seq", "str"} <= kinds:
+            return True
+        return any(str_vs_sequence(a, u, seen) for a in t[1])
+    if k in ("coll", "con"):
+        return str_vs_sequence(t[2], u, seen)
+    if k == "tuple":
+        return any(str_vs_sequence(a, u, seen) for a in t[1])
+    if k == "map":
+        return str_vs_sequence(t[2], u, seen)
+    if k == "obj":
+        if t[1] in seen:
+            return False
+        seen.add(t[1])
+        return any(str_vs_sequence(f["ty"], u, seen) for f in u["classes"][t[1]]["fields"])
+    return False
 
 
 def run_part(R, tier):
-    try:
-        from harness import ser_run
-    except ImportError:
-        R.count("serialization_side_not_built_yet")
-        return
-    ser_run.c08_part(R, tier)
+    pyrun.ensure_repo_on_path()
+    from apischema import serialize, serialization_method, serialization_default, PassThroughOptions
+    n = dict(quick=(40, 6, 3), thorough=(400, 8, 5))[tier]
+    P = SProducer(R, *n, depth=3, pass_through=False)
+
+    def hook(U, c):
+        if c.kind != "ok":
+            return
+        T = U.type(c.t)
+        kw = S.sopts_kwargs(c.opts)
+        base = c.payload
+        info = c.to_json()
+        before = repr(c.value)
+        rng = R.rng
+
+        def same(a, b):
+            return a == b and json.dumps(a, sort_keys=True, default=repr) == json.dumps(b, sort_keys=True, default=repr)
+        try:
+            # no_copy
+            other = serialize(T, c.value, **dict(kw, no_copy=not kw["no_copy"]))
+            R.count("ser:no_copy_flip")
+            if not same(other, base):
+                R.violation(f"serialize depends on no_copy: {other!r} vs {base!r}", dict(info, other=repr(other)))
+            # precomputed method
+            mkw = {k: v for k, v in kw.items()}
+            m = serialization_method(T, **mkw)
+            got = m(c.value)
+            R.count("ser:precomputed_method")
+            if not same(got, base):
+                R.violation(f"serialization_method(T)(v) = {got!r} differs from serialize(T, v) = {base!r}", info)
+            # check_type on a well-typed value
+            chk = serialize(T, c.value, **dict(kw, check_type=True))
+            R.count("ser:check_type")
+            if not same(chk, base):
+                R.violation(f"check_type=True changes the result on a well-typed value: {chk!r} vs {base!r}", info)
+            # sharing: with no_copy=False no mutable container of the input is in the output
+            out_copy = serialize(T, c.value, **dict(kw, no_copy=False))
+            shared = set(mutable_ids(out_copy)) & set(mutable_ids(c.value))
+            R.count("ser:sharing")
+            if shared:
+                R.violation("with no_copy=False the output shares a mutable container with the input", info)
+            # pass_through: the named types are left untouched, serialization_default completes them
+            flags = {k: rng.random() < 0.5 for k in ("any", "collections", "dataclasses", "enums", "tuple")}
+            pt = PassThroughOptions(**flags)
+            out_pt = serialize(T, c.value, **dict(kw, pass_through=pt))
+            dflt = serialization_default(**{k: v for k, v in kw.items() if k in ("additional_properties", "aliaser", "exclude_defaults",
+                                                                                  "exclude_none", "exclude_unset")})
+            R.count("ser:pass_through")
+            if str_vs_sequence(c.t, c.u):
+                R.count("ser:pass_through_skipped_str_vs_sequence")
+                return
+            try:
+                a = json.loads(json.dumps(out_pt, default=dflt))
+                b = json.loads(json.dumps(base))
+                if a != b:
+                    R.violation(f"pass_through={flags} then serialization_default gives {a!r}, serialize gives {b!r}", info)
+            except (TypeError, ValueError) as e:
+                if not flags["any"]:      # Any positions may carry objects json cannot dump with both strategies
+                    R.violation(f"pass_through={flags}: the result cannot be completed by serialization_default: {e}", info)
+        except Exception as e:
+            R.violation(f"{type(e).__name__} while varying the options: {e}", info)
+            return
+        if repr(c.value) != before:
+            R.violation("serialize modified its input", info)
+
+    P.hooks.append(hook)
+    P.run()
